@@ -6,7 +6,7 @@ from .. import jubjub as J
 
 THEOREMS = ["C12_law_complete", "C12_law_closed", "C12_law_inverse", "C12_add_emits", "C12_add_rows_iff", "C12_add_unique",
             "C12_add_satisfiable", "C12_neg", "C12_neg_emits", "C12_select_identity", "C12_select_identity_bit_boolean",
-            "C12_select_point", "C12_mul_point_emits", "C12_mul_point_sound", "C12_d_euler_criterion", "C12_sub_emits", "C12_sub_sound", "C12_select_identity_emits"]
+            "C12_select_point", "C12_mul_point_emits", "C12_mul_point_sound", "C12_d_euler_criterion", "C12_sub_emits", "C12_sub_sound", "C12_select_identity_emits", "C12_add_in_system", "C12_mul_point_in_system"]
 FIRST = 6
 
 def e(p, z=1): return " ".join(hx(v) for v in J.ext(p, z))
